@@ -58,6 +58,35 @@ def cli_leg(ctx):
                 ctx.violation("C17", "cli-ran-with-unparsable-policy", "condition %r: exit %d" % (badcond, r.returncode))
                 if os.path.exists(os.path.join(base, "dora.user")):
                     os.remove(os.path.join(base, "dora.user"))
+    # the password that is stored is the password that was checked: variants of P that pass a threshold which P itself fails
+    # (trailing line breaks / blanks add a little entropy); the stored digest is recomputed for both
+    import hashlib, hmac as _hmac
+    P = "horse-battery"
+    variants = [P + "\n", P + "\r\n", P + " ", P + "\t", " " + P, P + "\n\n"]
+    sc = subprocess.run([ctx.build("./cmd/pwscore")], input=json.dumps([["dora", P]] + [["dora", v] for v in variants]), stdout=subprocess.PIPE, text=True)
+    fig = json.loads(sc.stdout)
+    def digest_of(pw, salt):
+        k = hashlib.scrypt(pw.encode(), salt=salt, n=4, r=8, p=1, dklen=32)
+        return _hmac.new(fsfam.HMAC1, k, hashlib.sha256).digest()
+    for v, f in zip(variants, fig[1:]):
+        thr = int(f["entropy"])
+        if not thr > fig[0]["entropy"]:
+            continue
+        for cmd in (["add", "dora"], ["update", "bob"]):
+            r = subprocess.run([exe, "--store", cfg, "--policy-type", "zxcvbn", "--policy-condition", "entropy >= %d" % thr] + cmd + [v],
+                               stdout=subprocess.PIPE, stderr=subprocess.STDOUT, text=True, timeout=30)
+            n += 1
+            path = os.path.join(base, "dora.user" if cmd[0] == "add" else "bob.user")
+            if r.returncode == 0 and os.path.exists(path):
+                fld = open(path, "rb").read().split(b"\n")[0].split(b":")
+                salt, dig = base64.urlsafe_b64decode(fld[3]), base64.urlsafe_b64decode(fld[4])
+                if dig != digest_of(v, salt):
+                    stored = next((repr(c) for c in (P, v.strip(), v.rstrip("\r\n")) if dig == digest_of(c, salt)), "another password")
+                    if dig == digest_of(P, salt) or stored == "another password":
+                        ctx.violation("C17", "cli-stored-password-differs-from-checked:%s" % cmd[0],
+                                      "`%s %r` passed `entropy >= %d`, but the record holds %s, which fails it" % (cmd[0], v, thr, stored))
+            if cmd[0] == "add" and os.path.exists(path):
+                os.remove(path)
     return n
 
 
